@@ -170,6 +170,26 @@ func (propC11) Generate(r *Rand, tier string) []Case {
 			in := engIn{Doc: doc, Q: q, SQL: q.SQL()}
 			out = append(out, Case{Input: in, Tags: []string{tag}, Nontrivial: len(t.rows) >= 2, Key: q.SQL() + fmt.Sprint(doc)})
 		}
+		// documents whose keys look like engine-internal markers or wrappers: a row with a key spelled `<-`, a tree whose
+		// nodes have the single key that is also the name of the array they sit in, a key called dual / root / *
+		{
+			node := func(kids ...any) map[string]any { return map[string]any{"children": kids} }
+			tree := []any{node(node(node()), node()), node(), map[string]any{"children": []any{node()}, "id": 3.0}}
+			rows := []any{map[string]any{"id": 1.0, "<-": "prev", "n1": 2.0, "items": []any{map[string]any{"p": 1.0, "<-": 7.0}}},
+				map[string]any{"id": 2.0, "<-": map[string]any{"x": 1.0}, "n1": 1.0, "items": []any{}}}
+			doc := map[string]any{"t": rows, "nodes": tree, "<-": "top", "dual": []any{map[string]any{"id": 9.0}}, "root": map[string]any{"t": []any{map[string]any{"id": 5.0}}}, "*": []any{1.0}}
+			for _, sql := range []string{
+				"SELECT * FROM t WHERE n1 > 1", "SELECT id FROM t WHERE id = n1", "SELECT id, (SELECT p FROM items) AS s FROM t", "SELECT id FROM t WHERE EXISTS (SELECT * FROM items WHERE p > 0)",
+				"SELECT id, (SELECT `<-` AS b FROM dual) AS s FROM t", "SELECT (SELECT 1 AS one FROM dual) AS s, 2 > 1 AS b FROM dual",
+				"SELECT * FROM nodes WHERE EXISTS (SELECT * FROM children)", "SELECT * FROM nodes WHERE EXISTS (SELECT * FROM children WHERE EXISTS (SELECT * FROM children))",
+				"SELECT id FROM nodes WHERE NOT EXISTS (SELECT * FROM children)", "SELECT * FROM dual", "SELECT * FROM root", "SELECT id FROM `root.t` WHERE id > 1",
+				"SELECT * FROM t x JOIN t y ON x.id = y.id", "SELECT DISTINCT * FROM t", "SELECT * FROM t ORDER BY id DESC LIMIT 1",
+			} {
+				for _, wrapped := range []bool{false, true} {
+					out = append(out, Case{Input: engIn{Doc: doc, Q: &Stmt{Raw: sql}, SQL: sql, Wrapped: wrapped}, Tags: []string{"shape:marker-like-keys", "raw-sql"}, Nontrivial: true, Key: sql + fmt.Sprint(wrapped, round)})
+				}
+			}
+		}
 		// features outside the engine model (the purity observation needs no model): FUSE in every position of the
 		// select list, multi-dimensional selectors with ranges in FROM and in columns, top-level functions, INTO / USING
 		// joins, UNWIND, effect-only functions
